@@ -216,3 +216,10 @@ Example covsearch_example :
   covsearch_procedure [(1,2,3,9); (1,2,4,9); (5,2,3,9); (1,6,3,9)]%N [Some 0%nat; Some 1%nat; None] 1%nat (-1)%Z =
   [([(1,2,3,9); (1,2,4,9); (5,2,3,9); (1,6,3,9)]%N, 0%nat); ([(5,2,3,9); (1,6,3,9)]%N, 4%nat); ([(5,2,3,9)]%N, 6%nat)].
 Proof. vm_compute. reflexivity. Qed.
+
+(* Round 4: model TRANSITS(0,DEPOT) against the space TRANSITS([3,1],DEPOT);TRANSITS(2,NODEPOT): a DEPOT step to 3 or 1 *)
+Example lnt_transits_example :
+  forallb pstmt_ok [mkP (MList [0]) (MList [s_DEPOT])] = true /\
+  lnt_transits [mkP (MList [0]) (MList [s_DEPOT])]
+               [mkP (MList [3; 1]) (MList [s_DEPOT]); mkP (MList [2]) (MList [s_NODEPOT])] = Ok [LTransits s_DEPOT [3; 1]].
+Proof. split; vm_compute; reflexivity. Qed.
